@@ -63,6 +63,13 @@ impl Prop for C02 {
       },
     ]
   }
+  fn stages(&self, ctx: &Ctx) -> Vec<Stage> {
+    if ctx.tier == Tier::Thorough {
+      crate::fuzz::campaigns("C02", &["tree_c02"], ctx)
+    } else {
+      vec![]
+    }
+  }
   fn check(&self, case: &TreeCase) -> CheckResult {
     let spec = &case.spec;
     let want = model_text(spec);
